@@ -589,6 +589,7 @@ func (v *Verifier) checkNonNilGlobals() []string {
 func (v *Verifier) checkImmutable() []string {
 	var bad []string
 	bad = append(bad, v.checkNonNilGlobals()...)
+	bad = append(bad, v.checkMapInvAliasing()...)
 	for _, d := range v.db.Immutable {
 		sp := v.spkgs[d.PkgPath]
 		if sp == nil {
@@ -737,6 +738,15 @@ func (v *Verifier) verifyFunc(fullKey string, fc *FuncContract) (rep *FuncReport
 				return
 			}
 			rep.Unsupported = fmt.Sprintf("engine error: %v\n%s", r, trunc(string(debug.Stack()), 3000))
+		}
+	}()
+	nativeStrings = fc.Strings
+	defer func() {
+		nativeStrings = false
+		if rep != nil {
+			for _, o := range rep.Obls {
+				o.Strings = o.Strings || fc.Strings
+			}
 		}
 	}()
 	e := newExec(v, fn, fc, fc.Mode)
@@ -978,6 +988,13 @@ func (v *Verifier) verifyLemma(l *Lemma) (rep *FuncReport) {
 				return
 			}
 			rep.Unsupported = fmt.Sprintf("engine error: %v\n%s", r, trunc(string(debug.Stack()), 3000))
+		}
+	}()
+	nativeStrings = l.Strings
+	defer func() {
+		nativeStrings = false
+		for _, o := range rep.Obls {
+			o.Strings = o.Strings || l.Strings
 		}
 	}()
 	e := newExec(v, nil, nil, l.Mode)
